@@ -483,18 +483,29 @@ impl WriteNode {
                         "Diff detected: update of existing RRSET - recording change of RRSET from {current_rrset:?} to {new_rrset:#?}"
                     );
 
+                    // The TTL is part of every resource record of an RRset.
+                    // If it changes, all of the old records are gone and all
+                    // of the new records are new, whether or not their data
+                    // was there before.
+                    let ttl_changed = current_rrset.as_ref().unwrap().ttl()
+                        != new_rrset.ttl();
+
                     // Check each resource record in the RRset being updated
-                    // to see if it is missing from the new RRSet.
+                    // to see if it is missing from the new RRSet. Removed
+                    // records are reported as they were, i.e. with the TTL
+                    // of the RRset being updated.
                     let new_rrs = new_rrset.as_rrset().data();
-                    let mut removed_rrs =
-                        Rrset::new(new_rrset.rtype(), new_rrset.ttl());
+                    let mut removed_rrs = Rrset::new(
+                        new_rrset.rtype(),
+                        current_rrset.as_ref().unwrap().ttl(),
+                    );
                     for removed_rr in current_rrset
                         .as_ref()
                         .unwrap()
                         .as_rrset()
                         .data()
                         .iter()
-                        .filter(|rr| !new_rrs.contains(rr))
+                        .filter(|rr| ttl_changed || !new_rrs.contains(rr))
                     {
                         removed_rrs.push_data(removed_rr.clone());
                     }
@@ -517,7 +528,7 @@ impl WriteNode {
                         .as_rrset()
                         .data()
                         .iter()
-                        .filter(|rr| !old_rrs.contains(rr))
+                        .filter(|rr| ttl_changed || !old_rrs.contains(rr))
                     {
                         added_rrs.push_data(added_rr.clone());
                     }
